@@ -695,6 +695,26 @@ def hist_fit(cases, outs):
     return h
 
 
+
+# ------------------------------------------------------------------ short header first byte (17.3.1)
+def gen_shortbits(rng):
+    if rng.random() < 0.6:
+        return [0, rng.randrange(64), rng.choice([0, 1, 2, 100, 127, rng.randrange(128)])]
+    return [1, rng.randrange(2), rng.randrange(2), rng.randrange(4)]
+
+
+def fixed_shortbits(tier):
+    out = []
+    for b in range(64):                     # every combination of spin / reserved / key phase / pn length bits
+        for pn in (0, 1, 77, 127):
+            out.append([0, b, pn])
+    for spin in (0, 1):                     # the crate's own encoder: both key phases, every pn length
+        for kp in (0, 1):
+            for sel in range(4):
+                out.append([1, spin, kp, sel])
+    return out
+
+
 registry.register("C05", {
     "gen": ["C05"],
     "props_file": "props/C05.v",
@@ -724,6 +744,10 @@ registry.register("C05", {
          "valid": lambda c: len(c) == 6 and c[0] in (0, 1) and all(0 <= v <= VMAX for v in c[1:3]) and 0 <= c[3] < 1 << 40 and c[4] in (0, 1) and 0 <= c[5] < 1 << 40,
          "nontrivial": lambda case, out: len(out) >= 2 and out[0] == 1,
          "histogram": hist_fit},
+        {"name": "shortbits", "gen": gen_shortbits, "fixed": fixed_shortbits, "quick": 3000, "thorough": 30000,
+         "valid": lambda c: (len(c) == 3 and c[0] == 0 and 0 <= c[1] < 64 and 0 <= c[2] < 128) or (len(c) == 4 and c[0] == 1 and all(0 <= v < 4 for v in c[1:])),
+         "nontrivial": lambda case, out: len(out) >= 1,
+         "histogram": lambda cases, outs: {"accepted": sum(1 for o in outs if " 0 " in " " + o + " " and len(o.split()) >= 5), "protocol_violation": sum(1 for o in outs if o.split()[-1:] == ["3"])}},
         {"name": "tparams", "gen": gen_tparams, "fixed": fixed_tparams, "quick": 20000, "thorough": 300000,
          "valid": lambda c: False,      # no shrinking: deleting bytes could turn value bytes into known ids (C14's domain)
          "nontrivial": lambda case, out: len(case) >= 10,
@@ -741,7 +765,7 @@ registry.register("C05", {
              "encoding length, all eight STREAM types x id/offset/length limits, dc token counts 0,1,2,4092,4093 +-1 byte, every prefix of 150 (quick) / 1500 (thorough) two-frame payloads. "
              "packets: grammar-generated datagrams of 1-3 coalesced packets of all six kinds, mutations, random bytes; fixed: every first byte x versions {0,1,unknown} x lengths, "
              "short-header dcid lengths 0..22, connection id lengths {0,1,19,20,21,255} in every long type, Length field at/below/above the bytes present in every encoding length, "
-             "Retry token/tag boundary 0..19 bytes, every prefix of sample datagrams. pnx (RFC 9000 A.3): direct decode of every window size with truncated values and largest-received at 0/1/2, half window +-2, window +-2, twice the window +-1 away from 0 and from 2^62-1, and encoder->bytes->decoder->expand with the receiver anywhere in and just outside the window; random cases clustered at 0, 2^62-1 and random bases. fit (Stream::try_fit / Crypto::try_fit): stream id and offset at every varint size, payload lengths 0..2, 62..66, 16382..16386, 2^30-2..2^30+2, capacities 0..header+3 and within +-3 of header+payload, header+prefix+payload for each prefix size, and of each varint boundary of the remaining capacity; frames up to 100000 bytes are really encoded. varint also: encode_updated(placeholder, replacement) over all boundary pairs. tparams (grammar only): blocks of 0-5 parameters with unknown ids >= 2^30 (greased ids among them), whole / every prefix / last length overrunning; tparams_total: blocks with known ids and random values, mutations, random bytes - judged for totality only. pn: deltas at 2^7, 2^15, 2^23, 2^31 +-1 from the largest acknowledged. "
+             "Retry token/tag boundary 0..19 bytes, every prefix of sample datagrams. pnx (RFC 9000 A.3): direct decode of every window size with truncated values and largest-received at 0/1/2, half window +-2, window +-2, twice the window +-1 away from 0 and from 2^62-1, and encoder->bytes->decoder->expand with the receiver anywhere in and just outside the window; random cases clustered at 0, 2^62-1 and random bases. fit (Stream::try_fit / Crypto::try_fit): stream id and offset at every varint size, payload lengths 0..2, 62..66, 16382..16386, 2^30-2..2^30+2, capacities 0..header+3 and within +-3 of header+payload, header+prefix+payload for each prefix size, and of each varint boundary of the remaining capacity; frames up to 100000 bytes are really encoded. shortbits: all 64 settings of the spin/reserved/key-phase/pn-length bits of a 1-RTT first byte through real encrypt+protect -> ProtectedPacket::decode -> unprotect -> decrypt, and the crate's Short encoder for both spin values, both key phases and all four pn lengths through the same path. varint also: encode_updated(placeholder, replacement) over all boundary pairs. tparams (grammar only): blocks of 0-5 parameters with unknown ids >= 2^30 (greased ids among them), whole / every prefix / last length overrunning; tparams_total: blocks with known ids and random values, mutations, random bytes - judged for totality only. pn: deltas at 2^7, 2^15, 2^23, 2^31 +-1 from the largest acknowledged. "
              "A varint case is non-trivial when it carries a byte or a value; a frames/packets case when at least the first frame/packet decodes; a pn case when a truncation exists"),
     "assumptions": [
         "totality of the *Rust* decoders (no panic / out-of-bounds / endless loop) is established on the inputs tried (each call under catch_unwind with a step budget, overflow checks and debug assertions on) plus the proved totality of the reference model; agreement with the reference is likewise per input",
